@@ -12,16 +12,22 @@
 //	             nobody listens on; P/Q dial G; every dial is triggered either by Swarm.DialPeer or by
 //	             Swarm.NewStream, which dials when it finds no connection). A restart closes G and builds a new node with a NEW gater
 //	             opened on the same Disk.
-//	full-stack-quic the same histories with every node listening on TCP AND QUIC (real p2p/transport/quic + quicreuse +
-//	             quic-go, instrumented, over simnet's UDP model; crypto/rand pinned by simrand). Per dial the dialler
-//	             knows the QUIC addresses only, both (the swarm's dial ranker races them) or TCP only; G's QUIC forms
-//	             are /ip4|/ip6/…/udp/4001/quic-v1, /ip6/::ffff:a.b.c.d/udp/… (never connectable: Go refuses "udp6" for
-//	             a mapped address — the gater is still asked first) and /dns4|/dns6 forms, plus QUIC decoys. Here the
-//	             transport calls the gater itself: InterceptAccept + InterceptSecured in listener.Accept (after the
-//	             QUIC handshake: a QUIC connection arrives secured, there is no accept-time raw connection to close),
-//	             InterceptSecured(outbound) in transport.dial. In 2/5 of these runs datagrams are lost (<= 30 %),
-//	             duplicated and delayed/reordered; the faults stop before the final round (everything closed on both
-//	             sides + 45 virtual seconds > QUIC idle timeout), and only rounds without faults expect liveness.
+//	full-stack-quic the same histories with every node listening on TCP, QUIC AND WebTransport (real p2p/transport/quic,
+//	             quicreuse, p2p/transport/webtransport, quic-go, http3, webtransport-go, all instrumented, over simnet's UDP
+//	             model; crypto/rand pinned by simrand). Per dial the dialler knows a drawn non-empty subset of the peer's
+//	             address kinds {QUIC, WebTransport, TCP} (with several the swarm's dial ranker races them). G's QUIC
+//	             forms: /ip4|/ip6/…/udp/4001/quic-v1, /ip6/::ffff:a.b.c.d/udp/… (never connectable: Go refuses "udp6" for
+//	             a mapped address — the gater is still asked first), /dns4|/dns6; WebTransport forms: the peer's
+//	             node.WTAddr() (current certhashes) in the same three spellings; QUIC / WebTransport decoys. Here the
+//	             transports call the gater themselves: QUIC — InterceptAccept + InterceptSecured in listener.Accept (after
+//	             the QUIC handshake: the connection arrives secured), InterceptSecured(outbound) in transport.dial;
+//	             WebTransport — InterceptAccept in the HTTP handler of the CONNECT request (refusal = 403), then a Noise
+//	             handshake on the session's first stream, then InterceptSecured(inbound) (refusal = session closed);
+//	             InterceptSecured(outbound) after the dialler's Noise handshake. In 2/5 of these runs datagrams are
+//	             lost (<= 30 %), duplicated and delayed/reordered; the faults stop before the final round (everything
+//	             closed on both sides + 45 virtual seconds > QUIC idle timeout); only rounds without faults expect
+//	             liveness, and under faults 15 virtual seconds (> the WebTransport listener's 10 s handshake timeout)
+//	             pass after a round, so that no inbound handshake that passed InterceptAccept straddles a rule change.
 //	hooks-direct the gater alone (same histories, faults, restarts); after every call every Intercept* hook is
 //	             asked about every pool IP in every textual form (/ip4, /ip6, /ip6/::ffff:…, /ip6zone, quic-v1,
 //	             webtransport, webrtc-direct, ws, bare IP) and about forms without IP component.
@@ -36,12 +42,18 @@
 //	                 of, whose remote matches a rule that is definitely in force (rules only change at quiescent
 //	                 instants between rounds, and gating hooks -> addConn -> notification of an inbound connection
 //	                 needs no virtual time, so "in force now" = "in force when it had to pass"; connections that
-//	                 existed before are exempt: documented to survive). QUIC connections get ".../quic" classes.
+//	                 existed before are exempt: documented to survive). QUIC / WebTransport connections get ".../quic", ".../webtransport" classes.
 //	dialed-*         a simnet dial attempt from G's IP to an address matching a definitely blocked addr/subnet, or
-//	                 to an address of a definitely blocked peer; QUIC (dialed-*/quic): a client Initial packet from G
+//	                 to an address of a definitely blocked peer; QUIC-based (dialed-*/quic|webtransport|
+//	                 quic-or-webtransport, by what G knew of that IP in the round): a client Initial packet from G
 //	                 to such an address seen on the UDP wire (an Initial whose destination connection id the
 //	                 destination never announced as its source connection id — see udpDial; traffic of connections
 //	                 that exist already and G's answers as a server are not attempts)
+//	refused-inbound-not-closed  (rounds without UDP faults) 5 virtual seconds after its dial a remote that matches a
+//	                 definitely blocked rule, had no connection before the round and is not listed by G still lists a
+//	                 connection to G: G refused a QUIC / WebTransport connection without closing it (these arrive fully
+//	                 established at the gating point, so "closed at accept / right after the handshake" is visible only
+//	                 as the remote's connection going away; far below the 30 s idle timeout)
 //	hook-not-consulted  a connection is admitted on G although the gater was never asked, since this node started,
 //	                 at one of the call sites the ConnectionGater interface documents for it (outbound: PeerDial,
 //	                 AddrDial for that transport+IP, Secured(outbound) for that peer+transport+IP, Upgraded for that
@@ -70,14 +82,15 @@
 // component (only: no panic), about the error value of a refused dial, about the remote side. A failed
 // connection although no rule matches is harness trouble unless a hook refused.
 //
-// Not simulated (gap): the WebTransport / WebRTC / websocket listeners' own InterceptAccept / InterceptSecured call
-// sites; their address forms reach the real gater only in the hooks-direct stratum. (QUIC's are exercised since the
-// full-stack-quic stratum exists.) For QUIC "closed at accept" has no wire-level oracle: the statement's accept is
-// the transport's Accept, which quic-go reaches after the handshake; asserted is that such a connection is never
-// admitted (no notification, no ConnsToPeer entry, hence no stream) and that the hooks were asked. An inbound remote multiaddr
-// in /ip6/::ffff:a.b.c.d form cannot occur over TCP (Go's net.TCPAddr folds it to IPv4; a host configured with
-// the mapped spelling as source IP is still seen as /ip4 by G — exercised as "mapped-source"), so that form is
-// covered inbound by hooks-direct only and outbound by both strata.
+// Not simulated (gap): the WebRTC and websocket listeners' own InterceptAccept / InterceptSecured call sites; their
+// address forms reach the real gater in the hooks-direct stratum only. QUIC's and WebTransport's call sites run in the
+// full-stack-quic stratum. For those two "closed at accept" cannot mean "before any handshake": the statement's accept
+// is the transport's gating point, which quic-go / the HTTP handler reach after the QUIC handshake; asserted is that
+// such a connection is never admitted (no notification, no ConnsToPeer entry, hence no stream), that the hooks were
+// asked, and that G closes what it refuses (refused-inbound-not-closed). An inbound remote multiaddr in
+// /ip6/::ffff:a.b.c.d form cannot occur over TCP or UDP (Go's net.TCPAddr / simnet fold it to IPv4; a host configured
+// with the mapped spelling as source IP is still seen as /ip4 by G — exercised as "mapped-source"), so that form is
+// covered inbound by hooks-direct only and outbound by every stratum.
 //
 // Sensitivity. Each mutation was applied alone to a private copy of the instrumented overlay (conngater.go,
 // swarm_dial.go, upgrader/listener.go, upgrader/upgrader.go), one worker, budget 60 s; all 27 of the first batch were reported within
@@ -116,7 +129,17 @@
 //	listener.go: InterceptAccept dropped                                    hook-not-consulted/InterceptAccept/inbound/quic, admitted-blocked-{addr,subnet}/inbound/quic/{ip4,ip6}/{live,restored}
 //	listener.go: gated connection not closed / handed to the swarm anyway   admitted-blocked-peer/inbound/quic
 //	transport.go dial path: InterceptSecured(outbound) dropped              hook-not-consulted/InterceptSecured/outbound/quic ONLY (invisible in behaviour with this gater, see above)
+//	listener.go: gated connection refused but left open (no closeWithError)  refused-inbound-not-closed/{peer,addr,subnet}/quic/{live,restored}
 //	swarm: InterceptAddrDial / InterceptPeerDial not consulted (C10_ONLY=quic)  dialed-blocked-{addr,subnet,peer}/quic, admitted-…/outbound/quic, hook-not-consulted/Intercept{Addr,Peer}Dial/outbound/{tcp,quic}
+//
+// WebTransport (overlay copies of p2p/transport/webtransport/{listener,transport}.go, C10_ONLY=quic, one worker, <= 60 s):
+//
+//	listener.go: InterceptAccept skipped                                    hook-not-consulted/InterceptAccept/inbound/webtransport, admitted-blocked-{addr,subnet}/inbound/webtransport/{ip4,ip6}/{live,restored}
+//	listener.go: InterceptSecured(inbound) skipped                          hook-not-consulted/InterceptSecured/inbound/webtransport, admitted-blocked-peer/inbound/webtransport/{live,restored}
+//	listener.go: InterceptSecured(inbound) inverted                         admitted-blocked-peer/inbound/webtransport/{live,restored}
+//	listener.go: gated session neither closed nor dropped (admitted)        admitted-blocked-peer/inbound/webtransport/{live,restored}
+//	listener.go: gated session dropped but not closed                       refused-inbound-not-closed/peer/webtransport/{live,restored}
+//	transport.go dial path: InterceptSecured(outbound) dropped              hook-not-consulted/InterceptSecured/outbound/webtransport ONLY (as for QUIC)
 //
 // Missed: none of those tried. (A first version of the DNS mutation — gating before resolution — broke
 // connectivity altogether and was reported as harness trouble, not as a violation; it was replaced by the one above.)
@@ -684,8 +707,14 @@ func (fs *fullStack) udpFilter(from, to *net.UDPAddr, b []byte) simnet.UDPVerdic
 }
 
 func tptOf(a ma.Multiaddr) string {
-	if a != nil && strings.Contains(a.String(), "/quic-v1") {
-		return "quic"
+	if a != nil {
+		s := a.String()
+		switch {
+		case strings.Contains(s, "/webtransport"):
+			return "webtransport"
+		case strings.Contains(s, "/quic-v1"):
+			return "quic"
+		}
 	}
 	return "tcp"
 }
@@ -771,8 +800,8 @@ func (r *recGater) InterceptAddrDial(p peer.ID, a ma.Multiaddr) bool {
 	if !allow {
 		fs.probe("refused-AddrDial")
 		fs.probe("refused-AddrDial-" + famTag(a))
-		if tptOf(a) == "quic" {
-			fs.probe("refused-AddrDial-quic")
+		if t := tptOf(a); t != "tcp" {
+			fs.probe("refused-AddrDial-" + t)
 		}
 	}
 	if n := r.hostByID(p); n != "" {
@@ -792,8 +821,8 @@ func (r *recGater) InterceptAccept(c network.ConnMultiaddrs) bool {
 	}
 	if !allow {
 		fs.probe("refused-Accept")
-		if tptOf(a) == "quic" {
-			fs.probe("refused-Accept-quic")
+		if t := tptOf(a); t != "tcp" {
+			fs.probe("refused-Accept-" + t)
 		}
 	}
 	fs.liveJudge("InterceptAccept", "addr", allow, verdict{}, fs.m.ipVerdict(ipOf(a)), famTag(a), fmt.Sprintf("inbound from %s", stripPort(a)))
@@ -813,14 +842,14 @@ func (r *recGater) InterceptSecured(d network.Direction, p peer.ID, c network.Co
 	if ip := ipOf(ra); ip != nil {
 		fs.noteCall("Secured|" + strings.ToLower(d.String()) + "|" + n + "|" + tptOf(ra) + "|" + normIP(ip))
 	}
-	if tptOf(ra) == "quic" {
-		fs.probe("quic-Secured-" + strings.ToLower(d.String()))
+	if t := tptOf(ra); t != "tcp" {
+		fs.probe(t + "-Secured-" + strings.ToLower(d.String()))
 	}
 	if d == network.DirInbound {
 		if !allow {
 			fs.probe("refused-Secured-inbound")
-			if tptOf(ra) == "quic" {
-				fs.probe("refused-Secured-inbound-quic")
+			if t := tptOf(ra); t != "tcp" {
+				fs.probe("refused-Secured-inbound-" + t)
 			}
 		}
 		fs.liveJudge("InterceptSecured", "peer", allow, pv, verdict{poss: iv.poss}, "", "inbound peer "+n)
@@ -866,7 +895,7 @@ func (fs *fullStack) startG() bool {
 	fs.calls = map[string]bool{}
 	fs.upgraded = map[network.Conn]bool{}
 	fs.mu.Unlock()
-	nd, err := simhost.New(fs.n, simhost.Opts{Key: simhost.DetKey(1), IP: gIP, Port: tcpPort, Security: fs.secu, Gater: &recGater{fs: fs}, QUIC: fs.quic,
+	nd, err := simhost.New(fs.n, simhost.Opts{Key: simhost.DetKey(1), IP: gIP, Port: tcpPort, Security: fs.secu, Gater: &recGater{fs: fs}, QUIC: fs.quic, WebTransport: fs.quic,
 		SwarmOpts: []swarm.Option{swarm.WithMultiaddrResolver(fs.dns)}})
 	if err != nil {
 		fs.trouble("node G: %v", err)
@@ -899,9 +928,9 @@ func (fs *fullStack) judgeAdmitted(e connEvent) {
 	dir := strings.ToLower(e.dir.String())
 	tpt := tptOf(e.addr)
 	dirT := dir
-	if tpt == "quic" {
-		dirT = dir + "/quic"
-		fs.probe("quic-conn-admitted-" + dir)
+	if tpt != "tcp" {
+		dirT = dir + "/" + tpt
+		fs.probe(tpt + "-conn-admitted-" + dir)
 	}
 	if v := fs.m.peerVerdict(n); v.def {
 		fs.violate("C10/admitted-blocked-peer/"+dirT+"/"+fs.phase(v.key), "%s on G for a NEW %s %s connection with blocked peer %s (%s); rules change only at quiescent instants between rounds", how, dir, tpt, n, stripPort(e.addr))
@@ -989,7 +1018,51 @@ type dialTask struct {
 }
 
 var triggerName = []string{"DialPeer", "NewStream"}
-var knowName = []string{"quic-only", "tcp+quic", "tcp-only"}
+
+// kinds of addresses a dialler may know of a peer (bit mask)
+const (
+	kQUIC = 1
+	kWT   = 2
+	kTCP  = 4
+)
+
+func kindsName(k int) string {
+	var p []string
+	if k&kQUIC != 0 {
+		p = append(p, "quic")
+	}
+	if k&kWT != 0 {
+		p = append(p, "webtransport")
+	}
+	if k&kTCP != 0 {
+		p = append(p, "tcp")
+	}
+	return strings.Join(p, "+")
+}
+
+// noCerthash shortens a WebTransport address for traces and signatures.
+func noCerthash(a string) string {
+	if i := strings.Index(a, "/certhash/"); i >= 0 {
+		return a[:i] + "/certhash…"
+	}
+	return a
+}
+
+// wtForms: the WebTransport address of the host as its swarm advertises it now (with the current certhashes) in the
+// textual forms of its IP: plain, IPv4-mapped (not connectable, like the QUIC one), and by name.
+func (fs *fullStack) wtForms(h *host) []string {
+	a := h.node.WTAddr()
+	if a == nil {
+		return nil
+	}
+	s := a.String()
+	rest := s[strings.Index(s, "/udp/"):]
+	low := strings.ToLower(h.name)
+	if h.v6 {
+		return []string{"/ip6/" + h.ip + rest, "/dns6/" + low + ".test" + rest}
+	}
+	return []string{"/ip4/" + h.ip + rest, "/ip6/::ffff:" + h.ip + rest, "/dns4/" + low + ".test" + rest}
+}
 
 func short(err error) string {
 	if err == nil {
@@ -1011,51 +1084,55 @@ func (fs *fullStack) round() {
 	// /ip6/::ffff:a.b.c.d/udp/…/quic-v1 is not one: the QUIC transport resolves it with network "udp6", which Go
 	// refuses for an IPv4-mapped address ("no suitable address found") — the gater is still asked about it first.
 	expectLive := map[*host]bool{}
+	udpKinds := map[string]int{} // QUIC-based address kinds G knows per destination IP in this round (class of dialed-*)
 	var tasks []*dialTask
 	var desc []string
 	for i, h := range hosts {
 		if mask&(1<<(2*i)) != 0 {
-			know := 2 // 0 QUIC addresses only, 1 both (the dial ranker races them), 2 TCP only
+			kinds := kTCP // which kinds of addresses of the peer G knows (with several the dial ranker races them)
 			if fs.quic {
-				know = fs.g.Weighted(3, 3, 1)
-				fs.probe("G-knows-" + knowName[know])
-			}
-			fm := 0
-			if know != 0 {
-				fm = fs.g.Int(1 << len(h.forms))
-				if fm == 0 {
-					fm = 1
-				}
+				kinds = 1 + fs.g.Int(7)
+				fs.probe("G-knows-" + kindsName(kinds))
 			}
 			var addrs []ma.Multiaddr
 			var names []string
-			if know != 2 {
-				qm := fs.g.Int(1 << len(h.qforms))
-				if qm == 0 {
-					qm = 1
+			pick := func(forms []string, kind int) {
+				m := fs.g.Int(1 << len(forms))
+				if m == 0 {
+					m = 1
 				}
-				for k, f := range h.qforms {
-					if qm&(1<<k) != 0 {
-						addrs = append(addrs, ma.StringCast(f))
-						names = append(names, f)
-						if !strings.HasPrefix(f, "/ip6/::ffff:") {
-							expectLive[h] = true
-						}
+				for k, f := range forms {
+					if m&(1<<k) == 0 {
+						continue
+					}
+					addrs = append(addrs, ma.StringCast(f))
+					names = append(names, noCerthash(f))
+					if kind == kTCP || !strings.HasPrefix(f, "/ip6/::ffff:") {
+						expectLive[h] = true
+					}
+					if kind != kTCP {
+						udpKinds[normIP(net.ParseIP(h.ip))] |= kind
+					}
+					switch {
+					case kind == kTCP && strings.HasPrefix(f, "/dns"):
+						fs.probe("dial-form-dns")
+					case kind == kTCP && strings.HasPrefix(f, "/ip6/::ffff:"):
+						fs.probe("dial-form-ip6-mapped")
+					case kind == kWT && strings.HasPrefix(f, "/dns"):
+						fs.probe("dial-form-webtransport-dns")
+					case kind == kWT && strings.HasPrefix(f, "/ip6/::ffff:"):
+						fs.probe("dial-form-webtransport-ip6-mapped")
 					}
 				}
 			}
-			for k, f := range h.forms {
-				if fm&(1<<k) != 0 {
-					addrs = append(addrs, ma.StringCast(f))
-					names = append(names, f)
-					expectLive[h] = true
-					switch {
-					case strings.HasPrefix(f, "/dns"):
-						fs.probe("dial-form-dns")
-					case strings.HasPrefix(f, "/ip6/::ffff:"):
-						fs.probe("dial-form-ip6-mapped")
-					}
-				}
+			if kinds&kQUIC != 0 {
+				pick(h.qforms, kQUIC)
+			}
+			if kinds&kWT != 0 {
+				pick(fs.wtForms(h), kWT)
+			}
+			if kinds&kTCP != 0 {
+				pick(h.forms, kTCP)
 			}
 			if fs.g.Chance(1, 4) {
 				fam := "ip4"
@@ -1063,11 +1140,19 @@ func (fs *fullStack) round() {
 					fam = "ip6"
 				}
 				d := fmt.Sprintf("/%s/%s/tcp/%d", fam, h.decoy, tcpPort)
-				if know == 0 || (know == 1 && fs.g.Bool()) {
+				if kinds&kTCP == 0 || (kinds != kTCP && fs.g.Bool()) {
+					// a QUIC-based decoy: plain QUIC, or WebTransport with the peer's real certhashes on a foreign IP
 					d = fmt.Sprintf("/%s/%s/udp/%d/quic-v1", fam, h.decoy, tcpPort)
+					dk := kQUIC
+					if kinds&kQUIC == 0 {
+						wf := fs.wtForms(h)[0]
+						d = fmt.Sprintf("/%s/%s%s", fam, h.decoy, wf[strings.Index(wf, "/udp/"):])
+						dk = kWT
+					}
+					udpKinds[normIP(net.ParseIP(h.decoy))] |= dk
 				}
 				addrs = append(addrs, ma.StringCast(d))
-				names = append(names, d+"(decoy)")
+				names = append(names, noCerthash(d)+"(decoy)")
 				fs.probe("dial-with-decoy")
 			}
 			fs.G.PS.ClearAddrs(h.node.ID)
@@ -1082,15 +1167,18 @@ func (fs *fullStack) round() {
 			tr := fs.g.Int(2)
 			via := "tcp"
 			if fs.quic {
-				know := fs.g.Weighted(3, 3, 1)
-				via = knowName[know]
+				kinds := 1 + fs.g.Int(7)
+				via = kindsName(kinds)
 				fs.probe("remote-knows-" + via)
-				ga := []ma.Multiaddr{fs.G.QAddr, fs.G.Addr}
-				switch know {
-				case 0:
-					ga = ga[:1]
-				case 2:
-					ga = ga[1:]
+				var ga []ma.Multiaddr
+				if kinds&kQUIC != 0 {
+					ga = append(ga, fs.G.QAddr)
+				}
+				if kinds&kWT != 0 {
+					ga = append(ga, fs.G.WTAddr()) // with G's current certhashes
+				}
+				if kinds&kTCP != 0 {
+					ga = append(ga, fs.G.Addr)
 				}
 				h.node.PS.ClearAddrs(fs.G.ID)
 				h.node.PS.AddAddrs(fs.G.ID, ga, peerstore.PermanentAddrTTL)
@@ -1104,11 +1192,13 @@ func (fs *fullStack) round() {
 	// state before the round
 	survivors := map[network.Conn]bool{}
 	nSurv := map[*host]int{}
+	xSurv := map[*host]int{} // the remote's own view before the round
 	for _, h := range hosts {
 		for _, c := range fs.G.Swarm.ConnsToPeer(h.node.ID) {
 			survivors[c] = true
 			nSurv[h]++
 		}
+		xSurv[h] = len(h.node.Swarm.ConnsToPeer(fs.G.ID))
 	}
 	fs.mu.Lock()
 	ev0 := len(fs.events)
@@ -1187,7 +1277,16 @@ func (fs *fullStack) round() {
 			}
 		}
 	}
-	fs.settle(5 * time.Second)
+	if faulty {
+		// An inbound WebTransport connection passes InterceptAccept, then runs a Noise handshake over the lossy wire
+		// before InterceptSecured and admission. The listener bounds that by its 10 s handshake timeout, and the
+		// dialler had G's answer to its CONNECT (sent after InterceptAccept) before its dial call returned: 15 virtual
+		// seconds after the dials returned nothing that passed InterceptAccept is still pending, so no admission
+		// straddles the next rule change.
+		fs.settle(15 * time.Second)
+	} else {
+		fs.settle(5 * time.Second)
+	}
 
 	// ---- outbound: transport dial attempts from G ----------------------------------------------------------
 	for _, d := range fs.n.Dials()[dials0:] {
@@ -1220,13 +1319,19 @@ func (fs *fullStack) round() {
 		if flagged[normIP(d.to)] {
 			continue // retransmissions of the same attempt
 		}
+		// the wire does not tell plain QUIC from WebTransport (both start with a QUIC handshake): the class names
+		// what G knew of that IP in this round
+		uk := map[int]string{kQUIC: "quic", kWT: "webtransport"}[udpKinds[normIP(d.to)]]
+		if uk == "" {
+			uk = "quic-or-webtransport"
+		}
 		if v := fs.m.ipVerdict(d.to); v.def {
 			flagged[normIP(d.to)] = true
-			fs.violate("C10/dialed-blocked-"+kindName[v.kind]+"/quic/"+fs.phase(v.key), "G sent a QUIC client Initial to %s (a connection attempt) although %s is blocked; round: %s", normIP(d.to), v.key, strings.Join(desc, ", "))
+			fs.violate("C10/dialed-blocked-"+kindName[v.kind]+"/"+uk+"/"+fs.phase(v.key), "G sent a QUIC client Initial to %s (a connection attempt) although %s is blocked; round: %s", normIP(d.to), v.key, strings.Join(desc, ", "))
 		}
 		if h := fs.hostByIP(d.to); h != nil && pv[h].def {
 			flagged[normIP(d.to)] = true
-			fs.violate("C10/dialed-blocked-peer/quic/"+fs.phase(pv[h].key), "G sent a QUIC client Initial to %s, an address of blocked peer %s; round: %s", normIP(d.to), h.name, strings.Join(desc, ", "))
+			fs.violate("C10/dialed-blocked-peer/"+uk+"/"+fs.phase(pv[h].key), "G sent a QUIC client Initial to %s, an address of blocked peer %s; round: %s", normIP(d.to), h.name, strings.Join(desc, ", "))
 		}
 	}
 	// ---- admitted connections on G: judged when the notification arrives (judgeAdmitted); here only entries
@@ -1241,6 +1346,27 @@ func (fs *fullStack) round() {
 			if !survivors[c] && !known {
 				fs.judgeAdmitted(connEvent{conn: c, peer: c.RemotePeer(), addr: c.RemoteMultiaddr(), dir: c.Stat().Direction})
 			}
+		}
+	}
+	// ---- a refused inbound connection is CLOSED by G ("closed at accept / right after the security handshake"):
+	// QUIC and WebTransport connections arrive at the transport's gating point fully established, so the remote
+	// holds a connection until G's close reaches it. Without UDP faults that takes no time: 5 virtual seconds
+	// after the dials (far below the 30 s idle timeout that would clean up by itself) a remote that matches a
+	// definitely blocked rule, had no connection before the round and is not listed by G must not list G either.
+	if !faulty {
+		for _, h := range hosts {
+			if !(pv[h].def || iv[h].def) || nSurv[h] > 0 || xSurv[h] > 0 || len(fs.G.Swarm.ConnsToPeer(h.node.ID)) > 0 {
+				continue
+			}
+			left := h.node.Swarm.ConnsToPeer(fs.G.ID)
+			if len(left) == 0 {
+				continue
+			}
+			v := pv[h]
+			if !v.def {
+				v = iv[h]
+			}
+			fs.violate("C10/refused-inbound-not-closed/"+kindName[v.kind]+"/"+tptOf(left[0].RemoteMultiaddr())+"/"+fs.phase(v.key), "%s (matches blocked %s) still holds %d connection(s) to G 5 virtual seconds after its dial although G admitted none: G refused without closing; round: %s", h.name, v.key, len(left), strings.Join(desc, ", "))
 		}
 	}
 	// ---- bookkeeping, liveness, signature ----------------------------------------------------------------------
@@ -1416,7 +1542,7 @@ func (fs *fullStack) runFullStack(mode simnet.LinkMode, tapeS *simrt.Stream) {
 	}
 	defer fs.closeG()
 	for _, h := range []*host{fs.P, fs.Q} {
-		nd, err := simhost.New(fs.n, simhost.Opts{Key: simhost.DetKey(h.seed), IP: h.srcIP, Port: tcpPort, Security: fs.secu, QUIC: fs.quic})
+		nd, err := simhost.New(fs.n, simhost.Opts{Key: simhost.DetKey(h.seed), IP: h.srcIP, Port: tcpPort, Security: fs.secu, QUIC: fs.quic, WebTransport: fs.quic})
 		if err != nil {
 			fs.trouble("node %s: %v", h.name, err)
 			return
